@@ -3,6 +3,7 @@ import Chess.Lemmas.Attack
 import Chess.Lemmas.Generated
 import Chess.Lemmas.Reach
 import Chess.Lemmas.Legal
+import Chess.Lemmas.Perft
 
 /-!
 # C01 — generated moves are exactly the legal moves of chess
@@ -117,6 +118,17 @@ open Chess.Legal in
 theorem start_position_qualifies : ∃ g, Game.ofFen startFen = .ok g ∧ g.abs = startPos ∧ SaneG g :=
   start_saneG
 
+open Chess.Legal Chess.Perft in
+/-- **C01, corollary: the perft counts are the rules' counts.** `Game.perft` mirrors `perft` of
+`performance_test.rs` (in-place push / recursion / pop, the `depth == 1` shortcut); `Spec.perft` counts
+the legal lines of the given length by the rules. For every position reachable by legal play from a
+sane start they agree at EVERY depth, and the function leaves the game as it found it — the six
+perft tables of the test suite are instances of this theorem for depths the suite can afford. -/
+theorem perft_counts_are_the_rules' {g0 g : Game} (h : LegalReach g0 g) (hw : g0.WF)
+    (h0 : Spec.sane g0.abs = true) (d : Nat) :
+    g.perft d = Spec.perft d g.abs ∧ g.perftGame d = g :=
+  ⟨perft_eq_spec h hw h0 d, perft_restores (legalReach_sane (saneG_of_sane hw h0) h).wf d⟩
+
 end Chess.Props.C01
 
 #print axioms Chess.Props.C01.attack_scan_is_the_rules
@@ -131,3 +143,4 @@ end Chess.Props.C01
 #print axioms Chess.Props.C01.legal_move_texts
 #print axioms Chess.Props.C01.shortcut_is_sound
 #print axioms Chess.Props.C01.start_position_qualifies
+#print axioms Chess.Props.C01.perft_counts_are_the_rules'
